@@ -158,6 +158,7 @@ pub fn check_case(ctx: &mut Ctx, ps: &mut Parsers, case: &Case) {
         }
         n
     });
+    let recipe_has_servings = recipe.servings().is_some();
     if let Some(s) = ctx.op(case, "default_scale", || recipe.default_scale()) {
         consume_scaled(ctx, case, ps, "default_scale", s);
     }
@@ -170,9 +171,13 @@ pub fn check_case(ctx: &mut Ctx, ps: &mut Parsers, case: &Case) {
             consume_scaled(ctx, case, ps, "scale", s);
         }
     }
-    if let Some(Some(r)) = ctx.op(case, "parse", || parser.parse(input).into_output()) {
-        if let Some(s) = ctx.op(case, "scale_to_servings", || r.scale_to_servings(7, &conv)) {
-            ctx.op(case, "scale_to_servings.json", || serde_json::to_string(&s).map(|x| x.len()).unwrap_or(0));
+    // servings targets incl. 0 and u32::MAX: with a declared base of 0 or u32::MAX the factor is 0, inf or NaN
+    let targets: &[u32] = if recipe_has_servings { &[7, 0, 1, u32::MAX] } else { &[7] };
+    for n in targets {
+        if let Some(Some(r)) = ctx.op(case, "parse", || parser.parse(input).into_output()) {
+            if let Some(s) = ctx.op(case, "scale_to_servings", || r.scale_to_servings(*n, &conv)) {
+                consume_scaled(ctx, case, ps, "scale_to_servings", s);
+            }
         }
     }
 }
@@ -227,10 +232,15 @@ pub fn targeted() -> Vec<String> {
         v.push(format!("---\ntime: \"{t}\"\ncook time: {t}\n---\n"));
     }
     // servings
-    for t in ["4294967296", "1|1", "-1", "99999999999999999999", "1|2|x", "2 people | 4", "[1, 2, 2]", "[1, a]", "{a: 1}"] {
+    for t in ["4294967296", "1|1", "-1", "99999999999999999999", "1|2|x", "2 people | 4", "[1, 2, 2]", "[1, a]", "{a: 1}", "0", "0|2", "4294967295", "[0]"] {
         v.push(format!(">> servings: {t}\n@a{{1}}"));
         v.push(format!("---\nservings: {t}\n---\n@a{{1}}"));
+        // zero / huge / tiny amounts meet the servings base: 0 x inf, inf x 0 and overflow to inf inside scaling and fitting
+        v.push(format!("---\nservings: {t}\nserves: {t}\nyield: {t}\n---\n@a{{100%g}} @b{{0%g}} @c{{0}} @d{{0-1%cup}} @e{{0.0000000001%tsp}} #p{{0}} ~{{0%min}} 0 kg"));
     }
+    let d400 = "9".repeat(400);
+    v.push(format!("@a{{{d400}%g}} @b{{{d400}%cup}} @c{{{d400}-1%oz}} @d{{0.{}1%kg}} {d400} kg\n>> servings: 0", "0".repeat(400)));
+    v.push(format!(">> servings: 4294967295\n@a{{{d400}%lb}} @b{{0%lb}} @&a{{1%g}}"));
     // huge numbers
     let digits = "9".repeat(5000);
     v.push(format!("@a{{{digits}}}"));
